@@ -127,7 +127,7 @@ def fix_violation(v, params, E):
     elif cls == 'value': v['kind'] = 'headers'; v['api'] = 'cfg'; v['buf'] = (b'N:x' + raw + b'x\r\n\r\n').hex()
     else: v['kind'] = 'headers'; v['api'] = 'cfg'; v['buf'] = (b'x' + raw + b':v\r\n\r\n').hex()
     v['cap'] = 1; v['flags'] = 0; v['predicted'] = None; v['raw_scanner_input'] = raw.hex()
-    if 'does not return normally' in v['msg'] or 'cursor left the buffer' in v['msg']:
+    if ('does not return normally' in v['msg'] and any(k in v['msg'] for k in ('oob:', 'uninit:', 'ptrcmp:', 'align:'))) or 'cursor left the buffer' in v['msg']:
         # memory-safety failure inside a scanner: the embedding changes what lies after the bytes, so a native run cannot confirm it
         v['rel'] = 'ub'
     v['note'] = 'scanner-level counterexample embedded into a message; the native gate compares the real parser with the reference on it'
